@@ -30,7 +30,8 @@ RULE = ('exhaustive digraphs n<=3 (loops n<=2) x non-empty seed sets x {Diffusio
         '(thorough: all n=4); bipartite 0/1 and weighted biadjacency up to 3x3 (thorough 3x4) x row/col seeds; structured '
         'random graphs n<=12 with integer/dyadic weights, temperatures from {0, 1, 2, 3, 0.5, 2.5, 7, 10, 0.1}, '
         'init in/out of range, damping in [0,1] and outside, the three input forms; degenerate stream (no seeds, empty '
-        'dict, bad lengths, bad keys, n_iter<=0, empty matrix, sinks, explicit zeros, negative weights); harmonic limit on '
+        'dict, bad lengths, bad keys, n_iter<=0, empty matrix, sinks, explicit zeros, negative weights); normalize(matrix) itself on '
+        'every distinct matrix above and on signed matrices with explicit zeros; harmonic limit on '
         'connected undirected graphs n<=8. A case is non-trivial when the estimator returned values, some node is '
         'not a seed and two initial temperatures differ; distinct = distinct (estimator, matrix, arguments)')
 ASSUMPTIONS = [
